@@ -95,6 +95,9 @@ impl TcpListener {
         Ok(TcpListener { rx: tokio::sync::Mutex::new(rx) })
     }
     pub async fn accept(&self) -> io::Result<(TcpStream, SocketAddr)> {
+        if crate::fault(Fault::AcceptError) {
+            return Err(io::Error::from_raw_os_error(103));
+        }
         self.rx
             .lock()
             .await
@@ -134,6 +137,9 @@ impl AsyncUdpSocket {
         if self.faulty && crate::fault(Fault::SpuriousPending) {
             cx.waker().wake_by_ref();
             return Poll::Pending;
+        }
+        if self.faulty && crate::fault(Fault::UdpRecvError) {
+            return Poll::Ready(Err(io::Error::from_raw_os_error(12)));
         }
         match self.rx.lock().unwrap().poll_recv(cx) {
             Poll::Ready(Some(d)) => {
